@@ -80,6 +80,19 @@ def run(ctx):
             ctx.violation(f"run:exception:{m['input']}", f"{m}", m)
         elif m.get("groups", 0) >= 1:
             ctx.nontriv(json.dumps(m))
+    # the written file as a sentence of PkaFile.tla: every profile part the API computes is printed, once, in its place
+    from .. import pkafile
+    lay = [m for m in meta if m.get("_layout")]
+    if lay:
+        lv = pkafile.validate(ctx, [m["_layout"] for m in lay], "files of the profile runs")
+        for inv, idxs in sorted(lv.items()):
+            if inv not in ("F_Accepted", "F_Profiles"):
+                continue
+            for i_ in idxs[:2]:
+                m = {k: v for k, v in lay[i_].items() if not k.startswith("_")}
+                ctx.violation(f"trace:{inv}:{m['input']}", f"{inv} violated by the file written for {m}", m)
+    for m in meta:
+        m.pop("_layout", None)
     viol = pc.validate(ctx, recs, meta, pc.C10_INV)
     for inv, ms in sorted(viol.items()):
         seen = set()
